@@ -285,11 +285,12 @@ PROPS["C16"] = {
     "harnesses": [
         H("h_c16_tokens", shards={"quick": shard_product(("node", 2), ("cdata", 3), ("shadow", 3)), "thorough": shard_product(("node", 2), ("cdata", 3), ("shadow", 3))}),
         H("h_c16_outputs", shards={"quick": shard_choose("shadow", 3), "thorough": shard_choose("shadow", 3)}),
+        H("h_c16_deep", {"DEPTH": 36}, {"DEPTH": 70}),
     ],
     "bounds": {"quick": "one 8-node tree (attribute and text symbolic, an empty element re-declaring prefixes before a sibling that "
                         "uses the outer binding, comment, PI), document and root element, 3 CDATA sets, unescaped_gt, suppress list",
                "thorough": "same"},
-    "outside": "other tree shapes; deep indentation levels",
+    "outside": "other tree shapes; nesting deeper than 36 (thorough 70) levels",
     "assumptions": [],
 }
 
